@@ -522,6 +522,12 @@ func (group *Group) feedRtpPacket(pkt rtprtcp.RtpPacket) {
 			continue
 		}
 
+		// a session between DESCRIBE and PLAY cannot be written to yet: the key frame that passes now is
+		// not the one it will start with, so it must go on waiting
+		if s.Stage.Load() != rtsp.SubSessionStageReadPlay {
+			continue
+		}
+
 		if !boundaryChecked {
 			switch group.sdpCtx.GetVideoPayloadTypeBase() {
 			case base.AvPacketPtAvc:
